@@ -9,7 +9,7 @@
     invalid contents; the four client types enter through [client_state], so the toggle theorems range
     over all 12 ordered type pairs). *)
 From Teleport Require Import Base.Bytes Base.Outcome Base.AList Model.Lifecycle Model.LifecycleCheck
-  Proofs.Lifecycle Proofs.LifecycleMonitor.
+  Proofs.Lifecycle Proofs.LifecycleMonitor Proofs.LifecycleExt.
 Local Open Scope N_scope.
 
 (** ** A failed step changes nothing (any code variant): the previous client, its consensus states and
@@ -120,6 +120,23 @@ Theorem C18_valid_update_succeeds : forall st name c h signer,
 Proof. intros. apply valid_update_succeeds; try assumption. reflexivity. Qed.
 Print Assumptions C18_valid_update_succeeds.
 
+(** ** ... and in every REACHABLE state no hypothesis on the store is left: along every history from the empty state
+    whose ETH content is consistent ([op_eth_ok]: an ETH proposal's consensus state carries the root of its own header,
+    ETH heights use revision 0) a valid update from the authorised account succeeds, for all four types.  Both
+    clauses of [op_eth_ok] are necessary (Refuted/C18_hyps.v: [C18_eth_foreign_root_refuted],
+    [C18_eth_revision_collision_refuted]; both reproduced on the real code by corpus cases). *)
+Theorem C18_valid_update_succeeds_reachable : forall os t name c h signer,
+  Forall op_eth_ok os ->
+  let st := run head_cfg (empty_state t) os in
+  authorised st name signer ->
+  sget KClient (store_of st name) = Some (VClient c) ->
+  (forall a r, c = ClTss a r -> a = signer) ->
+  status (now st) c (store_of st name) = 0%nat ->
+  header_valid_for (now st) c h (store_of st name) ->
+  exists st', step head_cfg st (Update name h signer true) = (0%nat, st') /\ updated c h (store_of st' name).
+Proof. intros os t name c h signer Ok. apply valid_update_succeeds_reachable; try reflexivity. exact Ok. Qed.
+Print Assumptions C18_valid_update_succeeds_reachable.
+
 (** ** In EVERY history from the empty state a client store holds consensus states of the client's type
     only, every Tendermint iteration key has its consensus state and a TSS client has no consensus state:
     the type part of [store_clean] never needs to be assumed (this is what clearing the store on a toggle
@@ -154,6 +171,102 @@ Theorem C18_monitor_sound_toggle : forall st p st',
   mon_installed_core 2 p st' = [].
 Proof. intros st p st'. apply (monitor_toggle_sound head_cfg); reflexivity. Qed.
 Print Assumptions C18_monitor_sound_toggle.
+
+(** ** Upgrade, "and nothing else changes": under every key that is not one of the installed ones
+    ([installed_keys]: client state, consensus state at the new latest height, that height's metadata — their
+    values are given by [installed] in [C18_upgrade_keeps_type]) the upgraded store is the old one; the BSC
+    UpgradeState additionally deletes every recent signer and the earliest consensus state when it is expired
+    ([upgrade_other]).  Together the two theorems determine the upgraded store key by key. *)
+Theorem C18_upgrade_frame : forall st p st',
+  exec head_cfg st (Upgrade p) = Ok st' ->
+  forall k, existsb (ckey_eqb k) (installed_keys (p_client p)) = false ->
+    sget k (store_of st' (p_name p)) = upgrade_other (now st) (p_client p) (store_of st (p_name p)) k.
+Proof. intros st p st' E. apply (upgrade_frame head_cfg); [reflexivity | exact E]. Qed.
+Print Assumptions C18_upgrade_frame.
+
+(** ** "... proofs at the installed height verify once the delay has passed".
+    (a) A consensus state of the client's type that is not expired — in particular the installed one — and its
+    Tendermint processed time survive EVERY successful update that is not an update to that very height (the
+    pruning step of the three light clients removes expired states only). *)
+Theorem C18_update_keeps_unexpired : forall st name h signer vb st' c hh k,
+  sget KClient (store_of st name) = Some (VClient c) ->
+  exec head_cfg st (Update name h signer vb) = Ok st' ->
+  sget (KCons hh) (store_of st name) = Some (VCons k) -> cs_type k = type_of c -> unexpired (now st) c k ->
+  hdr_height head_cfg h <> Some hh ->
+  sget (KCons hh) (store_of st' name) = Some (VCons k) /\
+    sget (KPTime hh) (store_of st' name) = sget (KPTime hh) (store_of st name).
+Proof. exact (update_keeps_cons head_cfg). Qed.
+Print Assumptions C18_update_keeps_unexpired.
+
+(** (a') ... lifted to histories: along EVERY sequence of operations that contains no other proposal for the chain
+    name and no update to the height itself ([keeps]; failed steps, updates, registrations, clock steps, proposals
+    for other names are all allowed), a consensus state of the client's type that is not expired at the end is still
+    stored at the end, with the processed time it had; the client keeps its type and trusting period. *)
+Theorem C18_installed_survives_history : forall name hh k os st c c',
+  forallb (keeps head_cfg name hh) os = true ->
+  sget KClient (store_of st name) = Some (VClient c) ->
+  sget (KCons hh) (store_of st name) = Some (VCons k) -> cs_type k = type_of c ->
+  sget KClient (store_of (run head_cfg st os) name) = Some (VClient c') ->
+  unexpired (now (run head_cfg st os)) c' k ->
+  sget (KCons hh) (store_of (run head_cfg st os) name) = Some (VCons k) /\
+  sget (KPTime hh) (store_of (run head_cfg st os) name) = sget (KPTime hh) (store_of st name).
+Proof. intros name hh k os st c c'. apply run_keeps_cons. Qed.
+Print Assumptions C18_installed_survives_history.
+
+Theorem C18_history_keeps_client_params : forall name hh os st c,
+  forallb (keeps head_cfg name hh) os = true ->
+  sget KClient (store_of st name) = Some (VClient c) ->
+  exists c', sget KClient (store_of (run head_cfg st os) name) = Some (VClient c') /\ same_params c c'.
+Proof. intros name hh os st c. apply run_keeps_client. Qed.
+Print Assumptions C18_history_keeps_client_params.
+
+(** (b) Tendermint: from [tnow + delay] on, the honest proof against the installed root verifies at the installed
+    height (class 0).  The bound [tnow + y < 2^64] is necessary: beyond it the gate never opens
+    ([C18_tm_delay_overflow_never_passes]; Refuted/C18_hyps.v has a concrete history). *)
+Theorem C18_tm_proof_verifies_after_delay : forall tnow t prf l tr d y r cns s,
+  installed tnow (ClTm l tr d y r) cns s -> cs_type cns = TM ->
+  tnow + y < two64 -> tnow + y <= t ->
+  gate t (cs_root cns) prf (ClTm l tr d y r) s l = 0%nat.
+Proof. exact installed_tm_proof_verifies. Qed.
+Print Assumptions C18_tm_proof_verifies_after_delay.
+
+Theorem C18_tm_delay_overflow_never_passes : forall t fx prf l tr d y r s h k pt,
+  get_cons TM h s = Some k -> sget (KPTime h) s = Some (VTime pt) -> h_lt l h = false ->
+  pt < two64 -> y < two64 -> two64 <= pt + y ->
+  gate t fx prf (ClTm l tr d y r) s h = 5%nat.
+Proof. exact tm_gate_overflow. Qed.
+Print Assumptions C18_tm_delay_overflow_never_passes.
+
+(** (c) BSC / ETH: the delay is counted in blocks of the counterparty; once the head of the client is
+    [len(validators)/2+1] (BSC) / [block_delay] (ETH) blocks above a height whose consensus state is still stored
+    (see (a)), the honest proof is checked against that consensus state's root. *)
+Theorem C18_bsc_gate_after_delay : forall t fx prf cur e vals tr r s h k,
+  get_cons BSC h s = Some k -> h_lt (eh_height cur) h = false -> fst h = fst (eh_height cur) ->
+  lenN vals / 2 + 1 <= sub64 (snd (eh_height cur)) (snd h) ->
+  gate t fx prf (ClBsc cur e vals tr r) s h = root_gate fx k.
+Proof. exact bsc_gate_after_delay. Qed.
+Print Assumptions C18_bsc_gate_after_delay.
+
+Theorem C18_eth_gate_after_delay : forall t fx prf cur bd tr r s h k,
+  get_cons ETH h s = Some k -> h_lt (eh_height cur) h = false -> fst h = fst (eh_height cur) ->
+  bd <= sub64 (snd (eh_height cur)) (snd h) ->
+  gate t fx prf (ClEth cur bd tr r) s h = root_gate fx k.
+Proof. exact eth_gate_after_delay. Qed.
+Print Assumptions C18_eth_gate_after_delay.
+
+(** ** The monitor's update clause (kind 22) accepts every successful update of the model (any code variant). *)
+Theorem C18_monitor_sound_update : forall cf st name h signer vb st',
+  exec cf st (Update name h signer vb) = Ok st' ->
+  mon_update_post st' (option_map type_of (client_of st name)) name h = [].
+Proof. exact monitor_update_sound. Qed.
+Print Assumptions C18_monitor_sound_update.
+
+(** ** [valid_name] IS the identifier rule of x/xibc/core/host/validate.go: character class of [IsValidID] and the
+    length bounds, regenerated from the Go source on every run (Gen/KeysGen.v); the side condition is evaluated
+    on the regenerated constants, so a change of the rule in the source breaks this obligation. *)
+Theorem C18_valid_name_is_source_rule : forall s, valid_name s = gen_valid_name s.
+Proof. apply valid_name_is_generated_rule. vm_compute. reflexivity. Qed.
+Print Assumptions C18_valid_name_is_source_rule.
 
 (** ** Non-vacuity: concrete contents of the four types meet the hypotheses, and a concrete history
     (register; create Tendermint; update; upgrade; toggle to ETH; update; toggle to TSS; TSS key rotation;
@@ -210,4 +323,36 @@ Example C18_nonvacuous_contents :
 Proof.
   repeat split; try (vm_compute; reflexivity); try discriminate.
   exists [B "val1"]. reflexivity.
+Qed.
+
+(** the hypotheses of [C18_update_keeps_unexpired] and of the gate theorems are met along the witness history:
+    the Tendermint consensus state installed at 0-5 survives the update to 0-7 with its processed time; after the
+    toggle to ETH (block delay 1) and one update the honest proof at the installed height 0-100 verifies. *)
+Example C18_nonvacuous_unexpired_survives :
+  let st := run head_cfg (empty_state Witness.t0) (firstn 2 Witness.history) in
+  let k5 := Witness.tmk (Witness.t0 - 60 * ns_per_s) in
+  let st' := snd (step head_cfg st (nth 2 Witness.history (Tick 0))) in
+  sget (KCons (0, 5)) (store_of st Witness.name) = Some (VCons k5) /\ unexpired (now st) (Witness.tmc 5) k5 /\
+    fst (step head_cfg st (nth 2 Witness.history (Tick 0))) = 0%nat /\
+    sget (KCons (0, 5)) (store_of st' Witness.name) = Some (VCons k5) /\
+    sget (KPTime (0, 5)) (store_of st' Witness.name) = Some (VTime Witness.t0) /\
+    (let st7 := run head_cfg (empty_state Witness.t0) (firstn 7 Witness.history) in
+   exists c, sget KClient (store_of st7 Witness.name) = Some (VClient c) /\ type_of c = ETH /\
+    gate (now st7) (B "root") [] c (store_of st7 Witness.name) (0, 100) = 0%nat).
+Proof.
+  cbv zeta. repeat split; try (vm_compute; reflexivity).
+  eexists. split; [vm_compute; reflexivity|]. split; vm_compute; reflexivity.
+Qed.
+
+(** the witness history is a history of consistent ETH content, and its last update meets [header_valid_for] *)
+Example C18_nonvacuous_reachable :
+  Forall op_eth_ok Witness.history /\
+  (let st := run head_cfg (empty_state Witness.t0) (firstn 10 Witness.history) in
+   sget KClient (store_of st Witness.name) = Some (VClient Witness.bscc) /\
+   header_valid_for (now st) Witness.bscc (HEvm BSC (Witness.ehd 201 (B "b201") (B "b200") 903) true) (store_of st Witness.name)).
+Proof.
+  split.
+  - unfold Witness.history. repeat (apply Forall_cons; [vm_compute; repeat split|]). apply Forall_nil.
+  - cbv zeta. split; [vm_compute; reflexivity|].
+    vm_compute. repeat split; try discriminate.
 Qed.
